@@ -112,6 +112,99 @@ def install(w):
         return prev_type_attr(it, v, attr, node)
     w.type_attr = type_attr
 
+    def f_instance_of_ref(it, v, name):
+        from pyvc.refs import VRef
+        cls = w.resolve_class(name.lit)
+        if isinstance(v, VRef):
+            return VBool(w.isinstance_ext(it, v, cls, None))
+        return VBool(False)
+    w.spec_funcs["instance_of_ref"] = f_instance_of_ref
+
+    def f_var_has_value(it, value_node, vv, fvv):
+        """the variable named by value_node has an entry in the scoped coerced variable values"""
+        from pyvc.refs import VRef, VOMap, OMAP_IDX, OMAP_LEN
+        from pyvc.sym import VAtom, VOpaque
+        if not isinstance(value_node, VRef):
+            return VBool(False)
+        name = it.getattr(it.getattr(value_node, "name", None), "value", None)
+        kv = sym.as_view(name)
+
+        def has(m):
+            idx = OMAP_IDX(m.t, kv.arr, kv.hi)
+            return z3.And(0 <= idx, idx < OMAP_LEN(m.t))
+
+        def part(x, attr):
+            if isinstance(x, VAtom):
+                return None
+            return it.getattr(x, attr, None)
+        f_sources = part(fvv, "sources")
+        f_coerced = part(fvv, "coerced")
+        v_coerced = part(vv, "coerced")
+        use_f = z3.BoolVal(False)
+        if f_sources is not None:
+            use_f = z3.And(OMAP_LEN(f_sources.t) > 0 if False else it.truth(fvv), has(f_sources))
+        in_f = has(f_coerced) if f_coerced is not None else z3.BoolVal(False)
+        in_v = has(v_coerced) if v_coerced is not None else z3.BoolVal(False)
+        return VBool(z3.If(use_f, in_f, in_v))
+    w.spec_funcs["var_has_value"] = f_var_has_value
+
+    def f_same_str(it, a, b):
+        from pyvc.sym import VStr
+        if isinstance(a, VStr) and isinstance(b, VStr):
+            va, vb = sym.as_view(a), sym.as_view(b)
+            if a.lit is not None or b.lit is not None:
+                return VBool(sym.str_eq(a, b))
+            return VBool(z3.And(va.arr == vb.arr, z3.simplify(va.lo) == z3.simplify(vb.lo),
+                                va.hi == vb.hi))
+        return VBool(False)
+    w.spec_funcs["same_str"] = f_same_str
+
+    def f_key_is_out_name(it, key, arg_def, arg_name):
+        """key == (arg_def.out_name or arg_name)"""
+        from pyvc.codec import VOpt
+        from pyvc.sym import VAtom
+        on = it.getattr(arg_def, "out_name", None)
+        if isinstance(on, VAtom):
+            return f_same_str(it, key, arg_name)
+        if isinstance(on, VOpt):
+            use_name = z3.Or(on.is_none, on.val.length() == 0)
+            return VBool(z3.If(use_name, f_same_str(it, key, arg_name).t,
+                               f_same_str(it, key, on.val).t))
+        return VBool(z3.If(on.length() == 0, f_same_str(it, key, arg_name).t,
+                           f_same_str(it, key, on).t))
+    w.spec_funcs["key_is_out_name"] = f_key_is_out_name
+
+    NAMED_OF = z3.Function("named_type_of", refs.RefS, refs.RefS, G.TyS)
+    NAMED_KNOWN = z3.Function("named_type_known", refs.RefS, refs.RefS, sym.B)
+
+    def f_same_ty_opt(it, result, pair):
+        """result (None | type) is the named type resolved for (schema, node) or None if unknown"""
+        from pyvc.sym import VAtom
+        from pyvc.codec import VOpt
+        s, n = pair
+        known = NAMED_KNOWN(s.t, n.t)
+        if isinstance(result, VAtom):
+            return VBool(z3.Not(known))
+        if isinstance(result, VOpt):
+            return VBool(z3.If(result.is_none, z3.Not(known),
+                               z3.And(known, result.val.t == NAMED_OF(s.t, n.t))))
+        return VBool(z3.And(known, result.t == NAMED_OF(s.t, n.t)))
+    w.spec_funcs["same_ty_opt"] = f_same_ty_opt
+    w.spec_funcs["named_type_of"] = lambda it, s, n: (s, n)
+
+    def f_cond_applies(it, schema, node, ty):
+        from pyvc.refs import VRef
+        from pyvc.codec import VOpt
+        if isinstance(node, VOpt):
+            node = node.val
+        if not isinstance(node, VRef):
+            return VBool(False)
+        c = NAMED_OF(schema.t, node.t)
+        known = NAMED_KNOWN(schema.t, node.t)
+        abstract = z3.Or(G.tkind(c) == K["INTERFACE"], G.tkind(c) == K["UNION"])
+        return VBool(z3.And(known, z3.Or(c == ty.t, z3.And(abstract, G.possible(schema.t, c, ty.t)))))
+    w.spec_funcs["cond_applies"] = f_cond_applies
+
     def f_ty_name(it, t):
         return refs.read_attr(it, "Ty", t.t, G.TyS, "name", "str")
     w.spec_funcs["ty_name"] = f_ty_name
